@@ -367,9 +367,75 @@ def r5(ctx):
     ctx.floor(rule, n, "C17.R5.matchers")
 
 
+def wide_reads(ex, narrow=False, out=None):
+    """calls of 64-bit ProtoRead decoders inside an origin, with whether the value is narrowed to 32 bit directly (before any
+    arithmetic is applied to it)"""
+    out = out if out is not None else []
+    if not isinstance(ex, tuple) or not ex:
+        return out
+    k = ex[0]
+    if k == "call" and "ProtoRead::read_" in ex[1] and any(w in (ex[5] if len(ex) > 5 else "") for w in ("u64", "i64")):
+        # only the raw varint may be narrowed; another decoder (read_sint64, ...) has already done 64-bit arithmetic
+        out.append((X.last_seg(ex[1]), narrow and X.last_seg(ex[1]) == "read_varint"))
+        return out
+    if k == "cast":
+        return wide_reads(ex[2], ex[1] in ("u32", "i32"), out)
+    if k in ("try", "ref", "deref", "mut"):
+        return wide_reads(ex[1], narrow, out)
+    for x in ex[1:]:
+        if isinstance(x, tuple):
+            if x and isinstance(x[0], str):
+                wide_reads(x, False, out)
+            else:
+                for y in x:
+                    if isinstance(y, tuple):
+                        if y and isinstance(y[0], str):
+                            wide_reads(y, False, out)
+                        else:
+                            for z in y:
+                                if isinstance(z, tuple):
+                                    wide_reads(z, False, out)
+    return out
+
+
+def r6(ctx):
+    rule = "C17.R6"
+    ctx.rule(rule, "32-bit decoders narrow first: read_sint32 / read_uint32 / read_enum_variant / read_tag cut the 64-bit varint to 32 "
+                   "bits before any arithmetic (the writers widen i32/u32 with `as u64`, which sign-extends zig-zag values with bit 31 "
+                   "set, so decoding at 64 bits and truncating afterwards yields a different number)")
+    P = ctx.program()
+    n = 0
+    for nm in ("read_sint32", "read_uint32", "read_enum_variant"):
+        bs = [b for b in P.find("asn1rs", "ProtoRead::" + nm) if b.def_kind == "AssocFn"]
+        if len(bs) != 1:
+            ctx.fail(rule, "anchor-lost:" + nm, "matched %d bodies" % len(bs))
+            continue
+        b = bs[0]
+        O = X.Origins(b, P)
+        found = []
+        for d in b.defs.get(0, ()):
+            if d[2] == "assign":
+                found.extend(wide_reads(O.rvalue(d[3], d[0], d[1], 0)))
+            elif d[2] == "call":
+                found.append((d[3].name, False)) if "ProtoRead" in (d[3].callee or "") else None
+        n += 1
+        detail = {"function": b.path, "wide_reads": found}
+        bad = [f for f in found if not f[1]]
+        if not found:
+            ctx.fail(rule, nm + "#anchor-lost", "%s no longer reads a varint" % nm, "%s:%d" % (b.file, b.line), detail)
+        elif bad:
+            ctx.fail(rule, nm, "%s applies arithmetic to / returns the 64-bit result of %s and narrows afterwards: values whose 32-bit "
+                               "zig-zag form has bit 31 set (|v| >= 2^30) decode to a different number" % (nm, bad[0][0]),
+                     "%s:%d" % (b.file, b.line), detail)
+        else:
+            ctx.ok(rule, nm, detail)
+    ctx.floor(rule, n, "C17.R6.decoders")
+
+
 def run(ctx):
     r1(ctx)
     r2(ctx)
     r3(ctx)
     r4(ctx)
     r5(ctx)
+    r6(ctx)
